@@ -3,7 +3,7 @@
 // It drives the REAL store (store.New(path).Write / .Read on real files, in a
 // resource-limited child process) and the extracted Coq model (ocaml/codec driver)
 // on the same inputs, evaluates the property's predicate on what the real code did
-// and compares the two sides. See run.go for the cases and the report format.
+// and compares the two sides. See gen.go for the cases, eval.go for the oracle, main.go for the report format.
 package main
 
 import (
@@ -193,7 +193,8 @@ func (es Entries) clone() Entries {
 //
 // Class: ok | err | panic | alloc | timeout | crash.
 // Alloc: real side = bytes allocated during the call (runtime.MemStats.TotalAlloc delta);
-//        model side = number of slice elements + map entries make() was asked for.
+//
+//	model side = number of slice elements + map entries make() was asked for.
 type Outcome struct {
 	Class   string
 	Kind    string // error kind (buftoosmall|overflow|verifymarshal|other) or panic reason
@@ -275,14 +276,20 @@ type EntryJSON struct {
 }
 
 // CaseJSON is the format of corpus files and of replay files:
-// kind "bytes": decode Hex; kind "map": write then read Map (in this order for the model);
-// kind "seq": write the maps of Seq one after the other to one file.
+// kind "bytes": a state file holding Hex is read; kind "map": write then read Map on a fresh path;
+// kind "seq": write the maps of Seq one after the other to one store, the state file and a left-over
+// "<path>.tmp" holding PreState / PreTmp beforehand (absent = no such file);
+// kind "perm": the model's encodings of Map in every entry order are read by the real store.
+// Other fields (rule, what, observed, ...) are for the reader and ignored here.
 type CaseJSON struct {
-	Kind string        `json:"kind"`
-	Hex  string        `json:"hex,omitempty"`
-	Map  []EntryJSON   `json:"map,omitempty"`
-	Seq  [][]EntryJSON `json:"seq,omitempty"`
-	Note string        `json:"note,omitempty"`
+	Kind     string        `json:"kind"`
+	Hex      *string       `json:"hex,omitempty"`
+	Map      []EntryJSON   `json:"map,omitempty"`
+	Seq      [][]EntryJSON `json:"seq,omitempty"`
+	PreState *string       `json:"pre_state_hex,omitempty"`
+	PreTmp   *string       `json:"pre_tmp_hex,omitempty"`
+	Origin   string        `json:"origin,omitempty"`
+	Note     string        `json:"note,omitempty"`
 }
 
 func toJSONEntries(es Entries) []EntryJSON {
